@@ -47,7 +47,7 @@ MUTANTS = [
      "                if available_data < MSG_LEN_SIZE + length {\n                    return Err(Error::Incomplete(\"Unknown\"));\n                }\n", "", 'position/computed-unguarded'),
     ('C06-choke-incomplete', ['C06'], 'src/messages/choke.rs', 'false => Err(Error::InvalidLength("Choke")),', 'false => Err(Error::Incomplete("Choke")),', 'incomplete-on-wrong-length/Choke'),
     ('C06-swallow-all-errors', ['C06'], 'src/connection.rs', "                Err(e) => return Err(e.into()),", "                Err(_) => return Ok(None),", 'error-swallowed'),
-    ('C06-size-limit-gone', ['C06'], 'src/frame.rs', "&& length > MAX_FRAME_SIZE {", "&& length > MAX_FRAME_SIZE * 1024 {", 'size'),
+    ('C06-size-limit-gone', ['C06'], 'src/frame.rs', "&& length > MAX_FRAME_SIZE {", "&& length > MAX_FRAME_SIZE * 1024 {", 'C06/5'),
     # ---- C07
     ('C07-have-len6', ['C07'], 'src/messages/have.rs', "const LEN: u32 = 5;", "const LEN: u32 = 6;", 'Have'),
     ('C07-little-endian', ['C07'], 'src/messages/have.rs', "self.piece_index.to_be_bytes()", "self.piece_index.to_le_bytes()", 'endianness'),
